@@ -99,6 +99,7 @@ type og struct {
 	used          map[string]int
 	noNull        bool
 	underAbstract int
+	rootAlias     string
 }
 
 func (g *og) mark(s string) { g.used[s]++ }
@@ -110,7 +111,13 @@ func (g *og) next(prefix string) string {
 
 // GenOp draws an operation of the given kind that is valid against schema.
 func GenOp(t *tape.Tape, w *World, schema *ast.Schema, kind ast.Operation, f OpFeatures, maxDepth, budget int) *Op {
-	g := &og{t: t, w: w, schema: schema, f: f, budget: budget, maxD: maxDepth, used: map[string]int{}}
+	return GenOpAliased(t, w, schema, kind, f, maxDepth, budget, "")
+}
+
+// GenOpAliased is GenOp with a forced alias on the (single) root field - used to tell
+// subscriptions apart on the upstream side.
+func GenOpAliased(t *tape.Tape, w *World, schema *ast.Schema, kind ast.Operation, f OpFeatures, maxDepth, budget int, rootAlias string) *Op {
+	g := &og{t: t, w: w, schema: schema, f: f, budget: budget, maxD: maxDepth, used: map[string]int{}, rootAlias: rootAlias}
 	var root *ast.Definition
 	switch kind {
 	case ast.Query:
@@ -404,7 +411,10 @@ func (g *og) field(parent *ast.Definition, fd *ast.FieldDefinition, depth int, u
 	key := fd.Name
 	alias := ""
 	plainID := fd.Name == "id" && !g.f.IDAlias
-	if g.f.Aliases && !plainID && g.t.Bool(1, 4) {
+	if depth == 1 && g.rootAlias != "" {
+		alias = g.rootAlias
+		key = alias
+	} else if g.f.Aliases && !plainID && g.t.Bool(1, 4) {
 		g.mark("alias")
 		alias = g.next("a")
 		if g.f.AliasCollide && g.t.Bool(1, 2) {
